@@ -556,8 +556,23 @@ class RDFLibJellyParser(RDFLibParser):
         if inp is None:
             msg = "expected source to be a stream of bytes"
             raise TypeError(msg)
+        # The views over the sink's store use the sink's own namespace manager: a new
+        # Graph/Dataset would create one of its own and bind rdflib's default
+        # namespaces into a sink that was created without them.
+        def graph_factory() -> Graph:
+            return Graph(
+                store=sink.store,
+                identifier=sink.identifier,
+                namespace_manager=sink.namespace_manager,
+            )
+
+        def dataset_factory() -> Dataset:
+            dataset = Dataset(store=sink.store)
+            dataset.namespace_manager = sink.namespace_manager
+            return dataset
+
         parse_jelly_to_graph(
             inp,
-            graph_factory=lambda: Graph(store=sink.store, identifier=sink.identifier),
-            dataset_factory=lambda: Dataset(store=sink.store),
+            graph_factory=graph_factory,
+            dataset_factory=dataset_factory,
         )
